@@ -187,6 +187,10 @@ def _mws():
     return _MW
 
 
+# `raw` is the source text at parse time and is never updated: it says nothing about the entry's current fields
+RAWS = [None, "@article{k, title = {T}, year = 2020}", "@article{k, title = {T}, month = dec, year = 2020}", ""]
+
+
 def apply(names, value, inplace, with_month=True, context=False):
     """Run the real middlewares on a library holding the entry (optionally among other blocks: @string
     macros named like the month spelling, another entry, comments); returns (status, value-or-exception)."""
@@ -196,7 +200,7 @@ def apply(names, value, inplace, with_month=True, context=False):
     if with_month:
         fields.append(Field("month", value))
     fields.append(Field("year", "2020"))
-    blocks = [Entry("article", "k", fields)]
+    blocks = [Entry("article", "k", fields, raw=RAWS[(len(names) + (1 if inplace else 0) + (2 if context else 0)) % len(RAWS)], start_line=3)]
     if context:
         blocks = [String("jan", '"Janvier"'), String("December", "{Dezember}"), Preamble("p"), ExplicitComment("month = jan")] + blocks + \
                  [Entry("book", "other", [Field("month", "{jan}"), Field("note", "month")])]
